@@ -13,8 +13,18 @@ IsC11Query(c) == c.op = "hq" /\ c.sel = "DEFAULT"
 IsC12Query(c) == c.op = "hq" /\ c.sel # "DEFAULT"
 
 (* exactly one reference per occurrence: no omissions, no duplicates *)
+(* A port or pin as the root of a cable / wire query (alone, or in a collection with the netlist): the    *)
+(* statement does not pin down how far the connectivity is followed from it (the code answers "inside" for *)
+(* wires and "inside and below" for cables), so for these roots only this is asked: no reference twice,     *)
+(* only valid occurrences, and everything the attached-inside oracle / the netlist root alone would give.   *)
+ItemRooted(c) == (c.root.t = "M") \/ (c.root.t = "E" /\ c.root.kind \in {"P", "Q"} /\ c.fn \in {"hcables", "hwires"})
 C11_ExactlyOnce(pre, c, ret) ==
-    IsC11Query(c) => NoDup(ret) /\ SeqSet(ret) = ExpectedHQ(pre, c)
+    IsC11Query(c) =>
+       IF ItemRooted(c)
+       THEN /\ NoDup(ret)
+            /\ SeqSet(ret) \subseteq OccOfFn(pre, TheNetlist(pre), c.fn)
+            /\ ExpectedHQ(pre, c) \subseteq SeqSet(ret)
+       ELSE NoDup(ret) /\ SeqSet(ret) = ExpectedHQ(pre, c)
 (* each returned reference is reported valid and named by the path *)
 C11_ValidNamed(pre, c, info) ==
     (IsC11Query(c) \/ c.op = "hcheck") => \A j \in DOMAIN info :
